@@ -282,7 +282,7 @@ class State:
         return tree
 
 
-def evaluate(view, events, where=None):
+def evaluate(view, events, where=None, partial=False):
     """where: per-event line numbers (from linegrammar.parse(want_lines=True)); when given a
     rejection is reported as ('reject', lineno, what, offending_value)"""
     def at(i):
@@ -314,6 +314,8 @@ def evaluate(view, events, where=None):
                 cur.add_section(idx, child.secname, value, at(i))
             elif ev[0] in ('import', 'include'):
                 raise Any()
+        if partial:
+            return ('ok', None)       # the text goes on (or fails) after these events
         return ('ok', top.finish(None))
     except Reject as e:
         if where is not None:
